@@ -161,6 +161,21 @@ def check(case, mon):
     for label, g, fresh in grids:
         mon.klass(label)
         _check_grid(g, fresh, label, rng, mon)
+        if g.num_faces and g.dim >= 1 and rng.random() < 0.5:
+            # the incidence of the SAME grid object is changed in place (orientation of a
+            # random subset of faces reversed: sign of their cell_faces rows), then every
+            # query is repeated: answers must follow the current incidence, not a memory of
+            # the first round
+            flip = np.flatnonzero(rng.random(g.num_faces) < 0.4)
+            if flip.size == 0:
+                flip = np.array([0])
+            D = np.ones(g.num_faces)
+            D[flip] = -1.0
+            import scipy.sparse as sps
+            g.cell_faces = (sps.diags(D) @ g.cell_faces).tocsc()
+            g.cell_faces.data = g.cell_faces.data.astype(int)
+            mon.count("grids_requeried_after_in_place_change")
+            _check_grid(g, False, label + "/requeried", rng, mon)
 
 
 def _check_grid(g, fresh, label, rng, mon):
